@@ -7,6 +7,7 @@ from . import lim
 from . import cmpeng
 from . import grid
 from . import conv
+from . import cxeng
 
 HIST_PROPS = set(hist.PROPS)
 
@@ -99,6 +100,10 @@ class _C13:
 
 
 SIMPLE = {
+    "C08": (cxeng, "exploration", ["g++ 12.2 and clang++ 14.0.6 with libstdc++ 12 at -std=c++20 (thorough: also g++ -std=c++23); clang++ -std=c++2b is excluded by the is_constant_evaluated canary (compiler defect, DESIGN.md C08)",
+                                   "the compilers' constant evaluators are the detectors of UB, out-of-lifetime access and unreleased allocations",
+                                   "program length is bounded by the evaluators' step limits; an evaluation-limit diagnostic is inconclusive, never a violation",
+                                   "moved-from sources are cleared before they are observed again (their contents, including size, are unspecified and legitimately differ under constant evaluation)"]),
     "C13": (_C13, "exploration", ["twin differential: g++ 12 -std=gnu++17 ASan+UBSan; conversions: g++ (C++17, C++20) and clang++ (C++14, C++20) with ASan+UBSan; archetypes: g++ -fsyntax-only",
                                   "floating-point sources are restricted to values whose conversion is defined (no UB in the oracle); bool sources are not generated (std::vector<bool> is not a contiguous source)",
                                   "whether a converting call must compile is decided by std::vector<To> accepting the same call"]),
@@ -121,6 +126,8 @@ def hist_assumptions(prop):
 
 
 def replay(prop, path):
+    if prop == "C08":
+        return cxeng.replay(path)
     if prop in HIST_PROPS:
         exe, err = hist.build("quick")
         if exe is None:
@@ -149,6 +156,7 @@ def claimed():
     out = {}
     for p in sorted(HIST_PROPS):
         out[p] = "fault" if p in ("C05", "C06") else "hist"
+    out["C08"] = "cx"
     out["C12"] = "lim"
     out["C13"] = "hist+conv"
     out["C16"] = "cmp"
